@@ -291,7 +291,7 @@ func TestP2Programs(t *testing.T) {
 		}
 	}
 	cfg := psgen.Config{TypeLiteral: true}
-	ev.SetupRapid(3000, 200000)
+	ev.SetupRapid(12000, 400000)
 	rapid.Check(t, func(t *rapid.T) {
 		var text string
 		switch rapid.IntRange(0, 4).Draw(t, "kind") {
@@ -468,7 +468,7 @@ func TestP3Fonts(t *testing.T) {
 	defer rec.Finish(t)
 	rec.Rule("type1.Read on structure-aware hostile fonts in all four containers (wrapped and encrypted correctly, so that they reach the charstring decoder): lenIV in {minint, -2^40, -1, 0..8, 100000, 2^31, maxint, non-integers}; charstrings and subroutines that are random sequences over all command codes (valid, reserved and undefined) and all number formats incl. truncated multi-byte numbers, every (argN, index) pair in -2..5 x -1..5 for callothersubr, pop on an empty stack, callsubr with out-of-range indices, div by zero, seac with arbitrary operands; subroutine call trees with fan-out 1-60 at depth 1-12 and recursive subroutines; Subrs/Encoding/FontMatrix/FontInfo/Private entries of the wrong type; two definefonts; hostile PostScript after definefont; plus valid fonts with random byte mutations and raw random bytes. Child-process oracle as above. Non-trivial: the input got past the container into the interpreter (heuristic: the file was produced by the structured writer); distinct by bytes.")
 	var cases []*hcase
-	ev.SetupRapid(2400, 160000)
+	ev.SetupRapid(10000, 320000)
 	rapid.Check(t, func(t *rapid.T) {
 		switch rapid.IntRange(0, 9).Draw(t, "kind") {
 		case 0:
@@ -582,7 +582,7 @@ func TestP4Others(t *testing.T) {
 	defer rec.Finish(t)
 	rec.Rule("ReadCMap: generated standard-form CMaps with one injected fault (counts 2^63-1 / negative / 101, missing begincmap, end operators of the wrong kind, doubled endcmap, truncation at any offset, operators with missing operands, strings instead of hex strings, hostile PostScript after defineresource) and raw bytes; afm.Read: generated AFM files with adversarial numbers (20-digit, minint, NaN, Inf, 1e999), lines of 65535-200000 bytes, nested or missing section markers, byte mutations, raw bytes; pfb.Decode (also through type1.Read): segment sequences with arbitrary markers and types, declared lengths 0..2^32-1 against 0-20 bytes of data, truncation anywhere. Child-process oracle as above. Non-trivial: input longer than 8 bytes; distinct by bytes.")
 	var cases []*hcase
-	ev.SetupRapid(3000, 200000)
+	ev.SetupRapid(12000, 400000)
 	rapid.Check(t, func(t *rapid.T) {
 		switch rapid.IntRange(0, 6).Draw(t, "target") {
 		case 0, 1:
